@@ -1,2 +1,48 @@
-From Cddl Require Import Sem.Syntax Sem.Validator.
-Theorem C01_placeholder : True. Proof. exact I. Qed.
+(* C01 - JSON validation verdicts equal RFC 8610 semantics on the core language.
+   The specification is Sem/Sem.v (MatchT / FailT, arrays as the documented PEG sequence match);
+   the decider vt (Sem/Validator.v) is what the correspondence check runs against the real validator.
+   Only statements closed by [exact]; proofs are in Sem/Sound.v, Sem/Excl.v, Sem/Decides.v. *)
+From Cddl Require Import Sem.Syntax Sem.Validator Sem.Sem Sem.Sound Sem.Excl Sem.Decides.
+Open Scope Z_scope.
+
+(* whenever the decider answers, the answer is the RFC verdict (jm = true: JSON reading of numbers) *)
+Theorem C01_json : forall jm e f t v b,
+  vt f jm e t v = Some b ->
+  (b = true <-> MatchT jm e t v) /\ (b = false <-> FailT jm e t v).
+Proof. exact vmodel_decides. Qed.
+
+(* the cursor algorithm for arrays - ordered "//", greedy occurrences, zero-width guard - is the PEG semantics,
+   and that semantics is deterministic *)
+Theorem C01_peg : forall jm e f g vs,
+  match vseq f jm e g vs with
+  | SOk r => SeqOk jm e g vs r /\ (forall r', SeqOk jm e g vs r' -> r' = r) /\ ~ SeqFail jm e g vs
+  | SFail => SeqFail jm e g vs /\ forall r, ~ SeqOk jm e g vs r
+  | SFuel => True
+  end.
+Proof. exact vseq_decides. Qed.
+
+(* the specification itself is consistent *)
+Theorem C01_sem_exclusive : forall jm e t v, MatchT jm e t v -> FailT jm e t v -> False.
+Proof. exact sem_exclusive. Qed.
+
+Theorem C01_seq_deterministic : forall jm e g vs r1 r2, SeqOk jm e g vs r1 -> SeqOk jm e g vs r2 -> r1 = r2.
+Proof. exact seq_det. Qed.
+
+(* non-vacuity: a schema with a nested array (occurrence inside a choice) and a map with a cut and a wildcard
+   table; the decider answers and therefore both derivations exist *)
+Definition ex_env : env :=
+  [ (0%N, DType (TArr (GSeq (GEnt None false (TRef 1006%N))
+                          (GSeq (GOcc 0%N None (GOr (GEnt None false (TRef 1001%N)) (GEnt None false (TRef 1015%N))))
+                                (GEnt None false (TRef 1%N))))))
+  ; (1%N, DType (TMap (GSeq (GEnt (Some (TLit (LText [97%N]))) true (TRef 1003%N))
+                          (GOcc 0%N None (GEnt (Some (TRef 1006%N)) false TAny)))))
+  ].
+Definition ex_doc_ok : value :=
+  VArr [VText [120%N]; VInt 1; VBool true; VInt 2; VMap [(VText [97%N], VInt (-3)); (VText [98%N], VNull)]].
+Definition ex_doc_bad : value :=
+  VArr [VText [120%N]; VInt 1; VMap [(VText [97%N], VText [120%N])]].    (* cut: "a" must be an int *)
+
+Example C01_example_match : MatchT true ex_env (TRef 0%N) ex_doc_ok.
+Proof. exact (proj1 (proj1 (vmodel_decides true ex_env 60 (TRef 0%N) ex_doc_ok true eq_refl)) eq_refl). Qed.
+Example C01_example_fail : FailT true ex_env (TRef 0%N) ex_doc_bad.
+Proof. exact (proj1 (proj2 (vmodel_decides true ex_env 60 (TRef 0%N) ex_doc_bad false eq_refl)) eq_refl). Qed.
